@@ -64,6 +64,15 @@ Proof.
 Qed.
 Print Assumptions C14_gibbs_warm_record.
 
+(* ... and so is every sequence of later calls (all histories: any number of calls, any lengths, zero-length calls anywhere):
+   none is refused, the warm-up record is the one of the first call, the stored chain is the one of ONE call *)
+Theorem C14_gibbs_warm_record_all_calls : forall (Cfg St Rnd Acc : Type) (step : Cfg -> St -> Rnd -> St * Acc) (c : Cfg) (init : St)
+    (w stored : list St) (rss : list (list Rnd)),
+  g_later Cfg St Rnd Acc step c init (mkG (Some w) stored) rss =
+  Some (mkG (Some w) (stored ++ states Cfg St Rnd Acc step c (last (w ++ stored) init) (concat rss))).
+Proof. intros. apply g_later_one. Qed.
+Print Assumptions C14_gibbs_warm_record_all_calls.
+
 (* REFUTED outside the guard (keeps = false: the code as found, signature
    legacy.Gibbs.sample|warmup-chain-dropped-by-later-call): _allocate_samples_warmup(0) of a later call binds samples_warmup to a
    new empty array.  The recorded warm-up chain is gone after the second call, and after sample(0, 2); sample(0) the next
